@@ -373,8 +373,16 @@ func run(raw json.RawMessage) driver.Result {
 		flagL.Path = &pathB
 		kind = "path-flag-overrides"
 	case situation < 8:
-		def.Path = &pathMissing
-		kind = "file-missing"
+		if r.Chance(1, 2) {
+			def.Path = &pathMissing
+			kind = "file-missing"
+		} else if r.Chance(1, 2) {
+			envL.Path = &pathA
+			kind = "path-only-env"
+		} else {
+			flagL.Path = &pathA
+			kind = "path-only-flag"
+		}
 	case situation < 9:
 		kind = "no-path"
 	default:
@@ -439,12 +447,15 @@ func run(raw json.RawMessage) driver.Result {
 	logMu.Unlock()
 	var cbMu sync.Mutex
 	newCfgCalls, errCalls := 0, 0
+	var newCfgArgs []string
 	params := ez.Params[EzCfg]{
 		WatchConfigFile: watch,
 		FlagSource:      mkFlags(),
 		OnNewConfig: func(ctx context.Context, o, n *EzCfg) {
 			cbMu.Lock()
 			newCfgCalls++
+			newCfgArgs = append(newCfgArgs, fmt.Sprintf("(%s, %s)", rty.StructFieldsTerm(reflect.ValueOf(o).Elem()),
+				rty.StructFieldsTerm(reflect.ValueOf(n).Elem())))
 			cbMu.Unlock()
 		},
 		OnWatchedError: func(ctx context.Context, err error, o, n *EzCfg) {
@@ -515,6 +526,9 @@ func run(raw json.RawMessage) driver.Result {
 		if kind == "path-env-overrides" || kind == "path-flag-overrides" {
 			used = pathB
 		}
+		if kind == "file-missing" {
+			used = pathMissing
+		}
 		newLeafs := genLeafs(r, 1, 1, 2)
 		if r.Chance(2, 3) {
 			t := true
@@ -540,10 +554,13 @@ func run(raw json.RawMessage) driver.Result {
 		}
 		time.Sleep(5 * time.Millisecond) // let callbacks of that re-stack finish
 		vlog2 := snapLog()
-		n2, e2 := snapCalls()
-		updTerm = fmt.Sprintf("(Some (%s, %s, %s, %d, %d))", newLayer,
+		_, e2 := snapCalls()
+		cbMu.Lock()
+		args2 := append([]string(nil), newCfgArgs[n1:]...)
+		cbMu.Unlock()
+		updTerm = fmt.Sprintf("(Some (%s, %s, %s, %s, %d))", newLayer,
 			rty.StructFieldsTerm(reflect.ValueOf(out.d.View()).Elem()),
-			coqfmt.List(vlog2[len(vlog1):]), n2-n1, e2-e1)
+			coqfmt.List(vlog2[len(vlog1):]), coqfmt.List(args2), e2-e1)
 	}
 	cancel()
 
